@@ -18,7 +18,9 @@ COLL = "antismash/common/secmet/features/cdscollection.py"
 EXPLANATION = (
     "R18.1: the pool API used by parallel_function / parallel_execute is from the order-preserving family (map, "
     "starmap, *_async + get) - never imap_unordered or completion-ordered collection - the value returned is exactly "
-    "the get() result, and the one-CPU shortcut is a list built in argument order. R18.2: failure surfaces: the pool "
+    "the get() result, the one-CPU shortcut is a list built in argument order, and the worker pool is created by the "
+    "call that uses it (workers are forked from the parent at that moment; a pool kept in module state runs later "
+    "batches against an earlier state of the parent). R18.2: failure surfaces: the pool "
     "timeout either raises in its handler or sets a flag that is tested-and-raised on every normal path afterwards; "
     "only the timeout and keyboard interrupt are handled; no path returns results not assigned by get(). R18.3: every "
     "call site passes a picklable callable (module-level function or functools.partial of one). R18.4: the custom "
